@@ -17,6 +17,10 @@ func checkC01(r *Run) {
 	rng := rand.New(rand.NewSource(r.Seed))
 	g := newMatchGen(rng, pick(r, 20, 34), 0, 3, pick(r, 5, 6), pick(r, 120, 220), false)
 	runMatchD1(r, g, "direct", false, pick(r, 5*time.Minute, 40*time.Minute))
+	// hostname mode: overlapping host patterns above path patterns with parameters
+	gh := newMatchGen(rng, pick(r, 4, 6), pick(r, 12, 16), 3, 3, pick(r, 30, 50), true)
+	gh.Hosts = append(derivedHostsFirst(gh, pick(r, 8, 14)), "a.b", "a.ab", "a.b.ab")
+	runMatchD1(r, gh, "direct", false, pick(r, 5*time.Minute, 40*time.Minute))
 	r.assumption("the reference matcher of spec/FoxMatch.tla is the documented routing rule (DESIGN.md 3.1, 7)")
 	r.assumption("requests have no empty path segment")
 }
@@ -33,10 +37,14 @@ func checkC09(r *Run) {
 func checkC08(r *Run) {
 	rng := rand.New(rand.NewSource(r.Seed))
 	g := newMatchGen(rng, pick(r, 18, 30), pick(r, 4, 6), 3, pick(r, 5, 6), pick(r, 120, 200), true)
-	g.Hosts = g.Hosts[:pick(r, 3, 6)]
+	g.Hosts = derivedHostsFirst(g, pick(r, 4, 8))
 	runMatchD1(r, g, "tsr", true, pick(r, 5*time.Minute, 40*time.Minute))
+	// hostname mode: trailing-slash matches below overlapping hosts (their parameters come from two stages)
+	gh := newMatchGen(rng, pick(r, 4, 6), pick(r, 12, 16), 3, 3, pick(r, 30, 50), true)
+	gh.Hosts = append(derivedHostsFirst(gh, pick(r, 8, 14)), "a.b", "a.ab", "a.b.ab")
+	runMatchD1(r, gh, "tsr", false, pick(r, 5*time.Minute, 40*time.Minute))
 	runServeD1(r, newServeGen(r, rng), "C08", pick(r, 5*time.Minute, 40*time.Minute))
-	runRedirectD2(r, rng)
+	runServeD2(r, rng, "C08")
 	r.assumption("Location is compared after RFC 3986 resolution against the request URL (net/url)")
 	r.assumption("CONNECT routes that ignore trailing slashes are not generated (DESIGN.md 7)")
 }
@@ -45,5 +53,6 @@ func checkC08(r *Run) {
 func checkC11(r *Run) {
 	rng := rand.New(rand.NewSource(r.Seed))
 	runServeD1(r, newServeGen(r, rng), "C11", pick(r, 5*time.Minute, 40*time.Minute))
+	runServeD2(r, rng, "C11")
 	r.assumption("Allow is compared as a set; for 405 with automatic OPTIONS enabled, OPTIONS may additionally be listed")
 }
